@@ -1,5 +1,6 @@
 """C20 -- CP^1 points, disks, Moebius maps (O1, K1, K2, U1)."""
 from ..rules import cp1_rules as R
+from ..rules import cache_rules as CA
 from ..rules import sibling_rules as SI
 from ..rules import degree_rules as DG
 from ..rules import shape_rules as SH
@@ -26,6 +27,7 @@ def run(ctx):
     ctx.do(SI.rule_k3)
     ctx.do(DG.rule_hd2)
     ctx.do(SI.rule_pt1, [SI.CP])
+    ctx.do(CA.rule_c2, "ProjectiveObject", scope=ctx.scope(ENTRIES))
     ctx.do(SH.rule_sh6)
     ctx.do(u1, ENTRIES, min_functions=20)
     ctx.r.assume("stereographic formulas, Moebius images, double complement "
